@@ -10,7 +10,7 @@ from ..cfg import build
 from ..tablerules import rows_calling, row_calls
 from ..selftest import Mutant, Rewrite
 
-EXPLANATION = ("Structural part only (the two-party convergence/liveness clause is NOT decided): (R1) choose_role evaluated over "
+EXPLANATION = ("(R8) two-party product of the dilation machines of a Leader and a Follower (engine A5): no internal failure, one connection and one generation at a time, AG EF converged under the link model T5. Structural rules: (R1) choose_role evaluated over "
                "my-side <,=,> their-side gives complementary roles, equal raises; the compared values are our side and the peer's "
                "`side` field, and please carries our side under that key. (R2) a Connector selects once (only connecting->connected), "
                "the Manager never starts a Connector while one may be racing without stopping it first, Manager._connection has two "
